@@ -19,4 +19,21 @@ CLAIMED = {
                      "recorded traces validated against the spec with TLC",
         "design_ref": "DESIGN.md section 4 (C19)",
     },
+    "C17": {
+        "text": "UnwrapUF.tla models reliability-sorted unwrapping as a union-find with offsets over "
+                "integer phases (units of 2*pi/K) where Union(e) is enabled for ANY remaining edge; "
+                "TLC checks TreeConsistent (inductive), Final (original field up to one constant per "
+                "mask component), Untouched and Acyclic for every Itoh field, every mask and every "
+                "merge order on small bounded and periodic grids, and rejects a sign-flipped variant. "
+                "Every initial state TLC enumerates (and simulated constructive fields up to 8x8, "
+                "K=16) is replayed into unwrap_phase_2d_torch and the three clauses of the property "
+                "are compared with the model's field and mask components.",
+        "note": "Trusted: TLC, the quantisation argument (phases are multiples of 2*pi/K so float "
+                "rounding cannot cross a decision boundary), the harness projection. The "
+                "implementation is exercised with its own reliability order only; all other merge "
+                "orders are covered on the model.",
+        "technique": "TLA+ union-find model checked by TLC over all merge orders; TLC-exported "
+                     "initial states replayed into the implementation",
+        "design_ref": "DESIGN.md section 4 (C17)",
+    },
 }
